@@ -60,7 +60,7 @@ class C01(object):
     time_keys = {"steps": "scheduler steps (one per instrumented access, GOMP entry or allocator call)"}
     fault_keys = ["switches", "realloc_moved", "realloc_stay", "alloc", "free", "parallel_runs", "np_empty_garbage_buffers", "history_runs(in-place parameter edit between updates)"]
     tiers = {"quick": {"runs": 5000, "budget_s": 55, "selftest_every": 50, "fresh_selftest": 6},
-             "thorough": {"runs": 600000, "budget_s": 800, "selftest_every": 300, "fresh_selftest": 12}}
+             "thorough": {"runs": 3000000, "budget_s": 800, "selftest_every": 300, "fresh_selftest": 12}}
     rule = ("one run = (parameter set drawn swarm style, 1..3000 peaks with counts on team*k and team*k+-1, team 1..32 "
             "and strategy for the strict kernel route, a second independent team/strategy for the Python routes); "
             "distinct = distinct (parameter/peak digest, team, schedule signature); non-trivial = a team >= 2 ran")
